@@ -17,7 +17,7 @@ _m(
     "products up to 2^25.5 (17 rows) - every row is judged 2x (quick) / 6x per worker (thorough) with Hypothesis-drawn contents "
     "(noise | blocks | smooth images, noise | radon-of-image sinograms, evenly spaced angles with a drawn offset or a seeded random "
     "angle set, float32/float64 theta); same oracle, batched == per-image and theta=0 clauses, no linearity.  "
-    "A radon/iradon case is NON-TRIVIAL when N is even, or some angle is not in {0,90,180}, or some "
+    "A radon/iradon case is In addition every image size 4..48 x every filter name is judged once per run (circle mode, noise + impulse sinograms: the size x filter grid).  NON-TRIVIAL when N is even, or some angle is not in {0,90,180}, or some "
     "image/sinogram is not (the radon of) a smooth image; a filter case is non-trivial when the filter is not None.  "
     "distinct = SHA-1 of the canonical JSON of the whole case.",
     [
